@@ -184,6 +184,14 @@ func c20PublisherStack(r *Run) {
 			return
 		}
 		what := fmt.Sprintf("batch %d (%d messages, delay kinds %v) through %v", b, n, kindsOfDelay(specs), names)
+		// whatever became of the call (accepted, rejected, failed further down): a message that arrived with its own delay
+		// metadata still carries it — "metadata already present" keeps its precedence when the caller tries again
+		for i, sp := range specs {
+			if sp.kind == 1 && (msgs[i].Metadata.Get(delay.DelayedForKey) != sp.presetFor || msgs[i].Metadata.Get(delay.DelayedUntilKey) != sp.presetUntil) {
+				r.Fail("C20.R3", "the delay metadata a message arrived with was changed or removed", "%s: %s has for=%q until=%q after Publish returned %v, it arrived with %q %q",
+					what, msgs[i].UUID, msgs[i].Metadata.Get(delay.DelayedForKey), msgs[i].Metadata.Get(delay.DelayedUntilKey), perr, sp.presetFor, sp.presetUntil)
+			}
+		}
 		// expected: does a delay layer reject the batch?
 		reject := error(nil)
 		rejectOptional, genFailedPassed := false, false
@@ -544,6 +552,7 @@ func c20RouterMetrics(r *Run) {
 	var hs []*hnd
 	wantHandler := map[string]uint64{}
 	wantPub := map[string]uint64{}
+	pubPanicked := false
 	for i := 0; i < nH; i++ {
 		h := &hnd{name: fmt.Sprintf("handler%d", i), plan: map[string]int{}}
 		h.sub = NewScriptedSubscriber(r, h.name+"-sub")
@@ -555,7 +564,7 @@ func c20RouterMetrics(r *Run) {
 			u := fmt.Sprintf("%s-m%d", h.name, m)
 			h.sub.Script["in"] = append(h.sub.Script["in"], ScriptMsg{UUID: u, Payload: "x"})
 			for a := 0; a <= 3; a++ {
-				h.plan[fmt.Sprintf("%s#%d", u, a)] = t.Int(7)
+				h.plan[fmt.Sprintf("%s#%d", u, a)] = t.Int(8)
 			}
 		}
 		hs = append(hs, h)
@@ -563,6 +572,9 @@ func c20RouterMetrics(r *Run) {
 		h.pub.Decide = func(c *PubCall) PubFault {
 			if len(c.Msgs) > 0 && c.Msgs[0].Metadata.Get("fail") == "1" {
 				return PubErr
+			}
+			if len(c.Msgs) > 0 && c.Msgs[0].Metadata.Get("fail") == "2" {
+				return PubPanic
 			}
 			return PubOK
 		}
@@ -588,6 +600,14 @@ func c20RouterMetrics(r *Run) {
 			case 4:
 				wantHandler["handler_name="+hh.name+",success=true"]++
 				return nil, nil
+			case 7:
+				// the inner publisher panics: the panic (or an error in its place) must come out of the decorators, the
+				// message must not be acked. Which success label a panicking publish call gets is left open.
+				r.Fault("publisher-panic")
+				pubPanicked = true
+				o.Metadata.Set("fail", "2")
+				wantHandler["handler_name="+hh.name+",success=true"]++
+				return []*message.Message{o}, nil
 			case 6:
 				// the handler gives up because something it called was cancelled: an invocation that failed, like any other
 				r.Fault("handler-error")
@@ -614,6 +634,10 @@ func c20RouterMetrics(r *Run) {
 	wantSub := map[string]uint64{}
 	for _, h := range hs {
 		for _, d := range h.sub.Deliveries {
+			if k := h.plan[fmt.Sprintf("%s#%d", d.Msg.UUID, d.Attempt)]; d.Acked() && (k == 1 || k == 2 || k == 3 || k == 6 || k == 7) {
+				r.Fail("C20.R2", "a message was acked although its handler or the wrapped publisher failed: the failure did not pass through the decorators",
+					"%s delivery %s#%d outcome plan %d (1 error, 2 panic, 3 publisher error, 6 error wrapping Canceled, 7 publisher panic), decorators applied twice: %v", h.name, d.Msg.UUID, d.Attempt, k, twice)
+			}
 			if d.Acked() {
 				wantSub["acked=acked,handler_name="+h.name+",subscriber_name=scen.ScriptedSubscriber"]++
 			} else if d.Nacked() {
@@ -622,7 +646,9 @@ func c20RouterMetrics(r *Run) {
 		}
 	}
 	c20Compare(r, "handler_execution_time_seconds", g["ns_sub_handler_execution_time_seconds"], wantHandler, "handler_name", "success")
-	c20Compare(r, "publish_time_seconds", g["ns_sub_publish_time_seconds"], wantPub, "handler_name", "success")
+	if !pubPanicked {
+		c20Compare(r, "publish_time_seconds", g["ns_sub_publish_time_seconds"], wantPub, "handler_name", "success")
+	}
 	c20Compare(r, "subscriber_messages_received_total", g["ns_sub_subscriber_messages_received_total"], wantSub, "handler_name", "acked")
 }
 
